@@ -110,7 +110,9 @@ def check(tier: str, pid: str = "C17", is_mine=mine) -> int:
     for l in lines[:: max(1, len(lines) // 5)][:5]:
         chk.cov["samples"].append(l)
     if pid == "C17":
-        from . import gen
+        from . import gen, lexer
+        # the scanner as a step machine (LiquidLexer.tla): TLC checks the machine, the library must produce its tokens
+        lexer.run(chk, tier)
         for module, name, consts, q, t in (("MC_Flow", "starts-flow", {}, 2, 3), ("MC_Trim", "starts-markers", {"Variant": '"markers"'}, 3, 4),
                                           ("MC_Scopes", "starts-scopes", {}, 2, 3), ("MC_Sites", "starts-sites", {}, 2, 3)):
             r = gen.run_focus(chk, module, name, max_top=t if tier == "thorough" else q, extra_constants=consts,
